@@ -104,16 +104,76 @@ def _t1(ctx, family, tags=None, floor=1, keep=None):
     return r
 
 
+NSP = 'GeographicLib::'
+
+
+def _lic(ctx, classes, rule, title, only_fns=None, floor=1):
+    from .rules import licrules
+    r, n = licrules.rule_objstate(ctx, [NSP + c for c in classes], rule, title, only_fns)
+    r.floor('functions analysed by the licence dataflow', n, floor)
+    r.assumptions.append('A-LOOP-FILL: a counted loop that stores into an array is assumed to run and fill it')
+    return r
+
+
 def _c01(ctx):
-    return [_t1(ctx, 'geodesic', {'A1m1f', 'C1f', 'C1pf', 'A3coeff', 'C3coeff'}, 60)]
+    from .rules import mask
+    m1, n1 = mask.rule_M1(ctx)
+    return [_t1(ctx, 'geodesic', {'A1m1f', 'C1f', 'C1pf', 'A3coeff', 'C3coeff'}, 60),
+            _lic(ctx, ['Geodesic', 'GeodesicLine', 'GeodesicLineExact'], 'L1',
+                 'exact-delegation licence on the direct path: series state is never consumed when exact=true '
+                 '(and the delegated solver never used when it was not built); line state only after Init()',
+                 {'GenDirect', 'GenDirectLine', 'Line', 'DirectLine', 'ArcDirectLine', 'LineInit', 'GenPosition',
+                  'A3f', 'C3f', 'C4f'}, 8),
+            m1]
+
+
+def _c02(ctx):
+    from .rules import exc
+    r6, n6 = exc.rule_X6(ctx, ['src/Geodesic.cpp', 'src/GeodesicExact.cpp'])
+    r6.floor('loops in the inverse solvers', n6, 10)
+    return [_lic(ctx, ['Geodesic', 'GeodesicExact'], 'L1',
+                 'exact-delegation / conditional-initialisation licence on the inverse path (GenInverse, InverseLine, '
+                 'Lengths, InverseStart, Lambda12): no conditionally initialised value reaches an output or a branch',
+                 {'GenInverse', 'InverseLine', 'Lengths', 'InverseStart', 'Lambda12', 'A3f', 'C3f', 'C4f'}, 10),
+            r6]
 
 
 def _c03(ctx):
-    return [_t1(ctx, 'geodesic', {'A2m1f', 'C2f', 'C4coeff'}, 60)]
+    from .rules import mask
+    outs = {'m12', 'm12b', 'm12a', 'm0', 'M12', 'M21', 'S12'}
+    m2, nf, ns = mask.rule_M2(ctx, only_outputs=outs)
+    m2.floor('gated writes of m12/M12/M21/S12', ns, 40)
+    m4, nc, na = mask.rule_M4_overloads(ctx, only_outputs=outs)
+    m4.floor('forwarded m12/M12/M21/S12 outputs', na, 80)
+    return [_t1(ctx, 'geodesic', {'A2m1f', 'C2f', 'C4coeff'}, 60), m2, m4,
+            _lic(ctx, ['GeodesicLine', 'GeodesicLineExact'], 'M3',
+                 'capability licence: m12/M12/M21/S12 are computed only from line state the capabilities initialised',
+                 {'GenPosition'}, 2)]
 
 
 def _c06(ctx):
-    return [_t1(ctx, 'tm', None, 40)]
+    return [_t1(ctx, 'tm', None, 40),
+            _lic(ctx, ['TransverseMercator'], 'L1',
+                 'exact-delegation licence in TransverseMercator: Krueger-series members are consumed only when '
+                 '!exact and the exact object only when exact', None, 6)]
+
+
+def _c12(ctx):
+    from .rules import mask
+    m1, n1 = mask.rule_M1(ctx)
+    m1.floor('enum relations', n1, 140)
+    m2, nf, ns = mask.rule_M2(ctx)
+    m2.floor('gated functions', nf, 12)
+    m2.floor('gated writes', ns, 100)
+    m4, nc, na = mask.rule_M4_overloads(ctx)
+    m4.floor('forwarding call sites', nc, 70)
+    m4.floor('forwarded outputs', na, 250)
+    lic = _lic(ctx, ['Geodesic', 'GeodesicLine', 'GeodesicExact', 'GeodesicLineExact', 'Rhumb', 'RhumbLine'], 'M3',
+               'capability / delegation / Init() licence (M3, L1, L2): along every path of every method of the solver and '
+               'line classes, no value that is initialised only under a capability bit, the exact flag or Init() reaches '
+               'an output argument, a return value, a branch condition or an array index unless the path establishes it',
+               None, 150)
+    return [m1, m2, m4, lic]
 
 
 def _c09(ctx):
@@ -132,7 +192,9 @@ def _c15(ctx):
 CHECKS = {
     'C01': _c01,
     'C03': _c03,
+    'C02': _c02,
     'C06': _c06,
+    'C12': _c12,
     'C09': _c09,
     'C15': _c15,
     'C04': _c04,
